@@ -234,6 +234,15 @@ pub async fn canon(w: &World) -> String {
     .to_string()
 }
 
+/// When the fault-free tail is run after a history. Its result depends only on the state reached, so
+/// during an exploration it is run once per canonical state: the first history that reaches a state
+/// claims it (the number of tails run is the number of distinct states, whatever the thread timing).
+pub enum Tail<'a> {
+    Never,
+    Always,
+    OncePerState(&'a std::sync::Mutex<std::collections::HashSet<u64>>),
+}
+
 pub struct Outcome {
     pub result: RunResult,
     /// acknowledged publications (epoch, entity) — for the restart differential
@@ -267,17 +276,33 @@ fn check_publications(pubs: &[Publication], out: &mut Vec<(&'static str, String,
 /// Replay one history on a fresh real signer node; the reference aggregator judges every
 /// publication when it happens, the log-level clauses are evaluated at the end, then the nominal
 /// tail (all faults cleared, three more epochs) must make the signer sign again.
-pub fn replay(scratch: &Path, fixture: &MithrilFixture, history: &[Ev], with_tail: bool) -> Outcome {
+pub fn replay(scratch: &Path, fixture: &MithrilFixture, history: &[Ev], tail: Tail) -> Outcome {
     let dir = fresh_dir(scratch);
     let rt = tokio::runtime::Builder::new_current_thread().enable_all().build().expect("tokio runtime");
     let hist_json = serde_json::to_value(history).unwrap();
     let res = rt.block_on(async {
+        let timing = std::env::var("MC_TIMING").is_ok();
+        let t_w = std::time::Instant::now();
         let mut w = World::new(dir.clone(), fixture).await;
+        if timing {
+            eprintln!("  world built in {:.1}ms", t_w.elapsed().as_secs_f64() * 1e3);
+        }
         let mut log = vec![];
         let mut disabled = false;
         for (i, ev) in history.iter().enumerate() {
             w.outside.agg.with(|st| st.step = i as i64);
+            let t_ev = std::time::Instant::now();
+            let n_log = log.len();
             let ok = apply(&mut w, ev, &mut log).await;
+            if log.len() == n_log {
+                log.push(format!("[{i}] {ev:?}{}", if ok { "" } else { " (no effect)" }));
+            } else {
+                let l = log.pop().unwrap();
+                log.push(format!("[{i}] {l}"));
+            }
+            if timing {
+                eprintln!("  [{i}] {ev:?} {:.1}ms {}", t_ev.elapsed().as_secs_f64() * 1e3, log.last().cloned().unwrap_or_default());
+            }
             if !ok && i + 1 == history.len() {
                 disabled = true;
             }
@@ -294,8 +319,15 @@ pub fn replay(scratch: &Path, fixture: &MithrilFixture, history: &[Ev], with_tai
             pubs.iter().filter(|p| p.acked).map(|p| format!("{}:{}", p.epoch, entity_str(&p.entity))).collect();
 
         // ---- nominal tail: the signer must not be stuck
-        let mut tail_label = "skipped";
+        let mut tail_label = "";
+        let with_tail = match &tail {
+            Tail::Never => false,
+            Tail::Always => true,
+            Tail::OncePerState(claimed) => claimed.lock().unwrap().insert(mc_core::hash64(&canon)),
+        };
+        let mut tails_run = 0u64;
         if with_tail && !disabled {
+            tails_run = 1;
             let n0 = w.outside.agg.with(|st| {
                 st.down = false;
                 st.stale = false;
@@ -324,10 +356,8 @@ pub fn replay(scratch: &Path, fixture: &MithrilFixture, history: &[Ev], with_tai
             let mut dup = vec![];
             check_publications(&all, &mut dup);
             found.extend(dup.into_iter().filter(|d| d.2 >= history.len() as i64).map(|d| (d.0, format!("(during the nominal tail) {}", d.1), d.2)));
-            if signed_again {
-                tail_label = "signs-again";
-            } else {
-                tail_label = "STUCK";
+            if !signed_again {
+                tail_label = ",STUCK-in-tail";
                 found.push((
                     "C20/signer-does-not-sign-again",
                     format!(
@@ -361,6 +391,7 @@ pub fn replay(scratch: &Path, fixture: &MithrilFixture, history: &[Ev], with_tai
             stats.insert("publications_acknowledged", st.publications.iter().filter(|p| p.acked).count() as u64);
             stats.insert("publications_rejected_by_reference", st.publications.iter().filter(|p| !p.accepted).count() as u64);
         });
+        stats.insert("fault_free_tails_run", tails_run);
         stats.insert("restarts", w.restarts as u64);
         stats.insert("critical_runtime_errors", w.critical_errors as u64);
         let bucket = match n_pubs {
@@ -376,7 +407,7 @@ pub fn replay(scratch: &Path, fixture: &MithrilFixture, history: &[Ev], with_tai
                 canon,
                 violations,
                 nontrivial: n_pubs > 0,
-                outcome: format!("published={bucket},state={final_state},tail={tail_label}"),
+                outcome: format!("published={bucket},state={final_state}{tail_label}"),
                 disabled,
             },
             published,
@@ -388,10 +419,10 @@ pub fn replay(scratch: &Path, fixture: &MithrilFixture, history: &[Ev], with_tai
     res
 }
 
-/// The nominal schedule: five epochs; the signer registers in every epoch, the others register
+/// The nominal schedule: four or five epochs; the signer registers in every epoch, the others register
 /// (all, all, all, a subset), signing starts in epoch 3. `slack` extra cycles are added after every
 /// group of cycles (used by the restart differential, where a restart costs at most two cycles).
-pub fn nominal(slack: usize) -> Vec<Ev> {
+pub fn nominal(epochs: usize, slack: usize) -> Vec<Ev> {
     use Ev::*;
     let mut s = vec![];
     let ticks = |s: &mut Vec<Ev>, n: usize| {
@@ -419,6 +450,9 @@ pub fn nominal(slack: usize) -> Vec<Ev> {
     ticks(&mut s, 6);
     s.push(Immutable);
     ticks(&mut s, 1);
+    if epochs < 5 {
+        return s;
+    }
     s.push(Others(0b010));
     // epoch 5
     s.push(Epoch);
